@@ -224,7 +224,30 @@ type c19Act struct {
 	K    int    `json:"k"`
 	Ck   string `json:"ck"`
 	What string `json:"what"`
+	// Var (probes only, no model counterpart): the user name / entity ID is written with other letter case - names and
+	// entity IDs are case-sensitive: "U1" is not the user "u1", ".../Saml/Metadata" is not a registered provider
+	Var bool `json:"var,omitempty"`
 }
+
+func c19CaseVar(s string) string {
+	// (of a URL only the path is varied: scheme and host are case-insensitive in URL semantics)
+	if rest, ok := strings.CutPrefix(s, "https://"); ok {
+		if i := strings.Index(rest, "/"); i >= 0 {
+			return "https://" + rest[:i] + c19CaseVar(rest[i:])
+		}
+	}
+	b := []byte(s)
+	for i := len(b) - 1; i >= 0; i-- {
+		if b[i] >= 'a' && b[i] <= 'z' && (i == 0 || b[i-1] == '/' || i == len(b)-1) {
+			b[i] -= 0x20
+		}
+	}
+	if string(b) == s {
+		return strings.ToUpper(s)
+	}
+	return string(b)
+}
+
 type c19Reply struct {
 	Status int    `json:"status"`
 	Kind   string `json:"kind"`
@@ -372,6 +395,11 @@ func (e *c19Env) cookie(ck string) string {
 
 func (e *c19Env) request(a c19Act) (httpReq, bool) {
 	u := func(p string) string { return idpSrvRoot + p }
+	eid := c19Eid
+	if a.Var {
+		a.U = c19CaseVar(a.U)
+		eid = func(x string) string { return c19CaseVar(c19Eid(x)) }
+	}
 	form := "application/x-www-form-urlencoded"
 	switch a.N {
 	case "PutUser":
@@ -413,7 +441,7 @@ func (e *c19Env) request(a c19Act) (httpReq, bool) {
 	case "LoginCookie":
 		return httpReq{Method: "GET", URL: u("/login"), Cookie: e.cookie(a.Ck)}, true
 	case "SSO":
-		return httpReq{Method: "GET", URL: authnRequestURL(e.srv.IDP.Metadata(), c19Eid(a.E), c19Acs(a.E), "rs"), Cookie: e.cookie(a.Ck)}, true
+		return httpReq{Method: "GET", URL: authnRequestURL(e.srv.IDP.Metadata(), eid(a.E), c19Acs(a.E), "rs"), Cookie: e.cookie(a.Ck)}, true
 	case "SSOLogin":
 		s := saml.ServiceProvider{EntityID: c19Eid(a.E), MetadataURL: mustURL(c19Eid(a.E)), AcsURL: mustURL(c19Acs(a.E)), IDPMetadata: e.srv.IDP.Metadata()}
 		req, err := s.MakeAuthenticationRequest(idpSrvRoot+"/sso", saml.HTTPPostBinding, saml.HTTPPostBinding)
@@ -1058,6 +1086,24 @@ func TestC19(t *testing.T) {
 						next = append(next, want.key())
 					}
 					snapMu.Unlock()
+				}
+				// names are case-sensitive: where the model's request succeeds, the same request under another spelling of the
+				// user name (no such user exists) or of the entity ID (no such provider is registered) must not
+				if real.Reply == ed.Reply && hashKey(fk)[0]%3 == 0 {
+					va := ed.Act
+					va.Var = true
+					switch {
+					case ed.Act.N == "Login" && real.SetCookie != "":
+						if pr := c19Restore(snap).do(va, 0, ""); pr.SetCookie != "" || pr.Reply.Kind == "json" || pr.Reply.Kind == "assertion" {
+							rep.Violation(key+":case-variant-user", fmt.Sprintf("a login as %q - no such user exists, %q does - with %s's password opens a session", c19CaseVar(ed.Act.U), ed.Act.U, ed.Act.U), replay(map[string]any{"probe": pr.Reply}))
+							return
+						}
+					case ed.Act.N == "SSO" && real.Reply.Kind == "assertion":
+						if pr := c19Restore(snap).do(va, 0, ""); pr.Reply.Kind == "assertion" {
+							rep.Violation(key+":case-variant-entity", fmt.Sprintf("a request issued by %q - not a registered service provider, %q is - obtains an assertion (towards %s)", c19CaseVar(c19Eid(ed.Act.E)), c19Eid(ed.Act.E), pr.Reply.Aud), replay(map[string]any{"probe": pr.Reply}))
+							return
+						}
+					}
 				}
 				// single store faults on the transitions that authenticate or issue assertions
 				sweep := map[string]bool{"Login": true, "SSO": true, "SSOLogin": true, "Shortcut": true, "LoginCookie": true,
